@@ -139,6 +139,58 @@ Proof.
   - split. apply u_line_parses; auto. split. apply u_item_assembles; exact He. auto.
 Qed.
 
+(* ---- branches and jal with a literal offset ------------------------------------------------------------------------------- *)
+Lemma b_item_assembles l name rs1 rs2 v w :
+  encode name [AStr rs1; AStr rs2; AInt v] [] = Ok w ->
+  assemble_items [(l, IInstr "BTypeInstruction" name [("rs1", R rs1); ("rs2", R rs2); ("imm", FExpr (EArith (ANum v)))] false)] [] [] false =
+  Done {| r_chunks := [(l, CBytes (le_bytes 4 w))]; r_consts := []; r_labels := [] |}.
+Proof. intro H. unfold assemble_items. cbn. unfold encode_item. cbn. rewrite H. reflexivity. Qed.
+Lemma j_item_assembles l name rd v w :
+  encode name [AStr rd; AInt v] [] = Ok w ->
+  assemble_items [(l, IInstr "JTypeInstruction" name [("rd", R rd); ("imm", FExpr (EArith (ANum v)))] false)] [] [] false =
+  Done {| r_chunks := [(l, CBytes (le_bytes 4 w))]; r_consts := []; r_labels := [] |}.
+Proof. intro H. unfold assemble_items. cbn. unfold encode_item. cbn. rewrite H. reflexivity. Qed.
+
+Definition b_names : list string := map fst B_TYPE_INSTRUCTIONS_final.
+Definition j_names : list string := map fst J_TYPE_INSTRUCTIONS_final.
+Lemma b_line_parses l name rs1 rs2 tok v :
+  In name b_names -> String.eqb rs1 "=" = false -> is_int tok = true -> parse_immediate [tok] l = FOk (EArith (ANum v)) ->
+  parse_item l [name; rs1; rs2; tok] =
+  FOk (IInstr "BTypeInstruction" name [("rs1", R rs1); ("rs2", R rs2); ("imm", FExpr (EArith (ANum v)))] false).
+Proof.
+  intros Hn Hrd Hi Hp. unfold b_names in Hn. vm_compute in Hn.
+  repeat (destruct Hn as [<-|Hn]; [nav Hrd; unfold ref_imm; rewrite Hi; cbn [fbind]; rewrite Hp; reflexivity|]).
+  contradiction.
+Qed.
+Lemma j_line_parses l name rd tok v :
+  In name j_names -> String.eqb rd "=" = false -> is_int tok = true -> parse_immediate [tok] l = FOk (EArith (ANum v)) ->
+  parse_item l [name; rd; tok] = FOk (IInstr "JTypeInstruction" name [("rd", R rd); ("imm", FExpr (EArith (ANum v)))] false).
+Proof.
+  intros Hn Hrd Hi Hp. unfold j_names in Hn. vm_compute in Hn.
+  repeat (destruct Hn as [<-|Hn]; [nav Hrd; unfold ref_imm; rewrite Hi; cbn [fbind]; rewrite Hp; reflexivity|]).
+  contradiction.
+Qed.
+
+(* branches and jal with a LITERAL offset *)
+Theorem transfer_line_end_to_end l name toks it args w :
+  (exists rs1 rs2 tok v, In name b_names /\ String.eqb rs1 "=" = false /\ is_int tok = true /\
+       parse_immediate [tok] l = FOk (EArith (ANum v)) /\ toks = [name; rs1; rs2; tok] /\ args = [AStr rs1; AStr rs2; AInt v] /\
+       it = IInstr "BTypeInstruction" name [("rs1", R rs1); ("rs2", R rs2); ("imm", FExpr (EArith (ANum v)))] false) \/
+  (exists rd tok v, In name j_names /\ String.eqb rd "=" = false /\ is_int tok = true /\
+       parse_immediate [tok] l = FOk (EArith (ANum v)) /\ toks = [name; rd; tok] /\ args = [AStr rd; AInt v] /\
+       it = IInstr "JTypeInstruction" name [("rd", R rd); ("imm", FExpr (EArith (ANum v)))] false) ->
+  In name base_mnemonics -> encode name args [] = Ok w ->
+  exists ops i,
+    parse_item l toks = FOk it /\
+    assemble_items [(l, it)] [] [] false = Done {| r_chunks := [(l, CBytes (le_bytes 4 w))]; r_consts := []; r_labels := [] |} /\
+    (0 <= w < 2 ^ 32)%Z /\ operands32 name args [] = Some ops /\ denote32 name ops = Some i /\ decode32 w = Some i.
+Proof.
+  intros Hc Hb He. destruct (decode_encode name _ _ w Hb He) as (Hw & ops & i & H1 & H2 & H3). exists ops, i.
+  destruct Hc as [(rs1 & rs2 & tok & v & Hn & Hrd & Hi & Hp & -> & -> & ->)|(rd & tok & v & Hn & Hrd & Hi & Hp & -> & -> & ->)].
+  - split. apply b_line_parses; auto. split. apply b_item_assembles; exact He. auto.
+  - split. apply j_line_parses; auto. split. apply j_item_assembles; exact He. auto.
+Qed.
+
 (* ---- explicitly written compressed instructions: two registers (c.mv, c.add, c.sub ..) or register + literal (c.addi, c.li ..) -- *)
 Lemma cr_item_assembles l cls name a b h :
   (cls = "CRTypeInstruction" \/ cls = "CATypeInstruction") ->
